@@ -11,7 +11,7 @@ use vengine::num;
 
 pub const EPS: f64 = f64::EPSILON;
 
-/// `‖∇‖₂ <= GRAD_SLACK * gradient_tolerance + RESOLUTION_FACTOR * sqrt(curv * max(1,|F|))`
+/// `‖∇‖₂ <= GRAD_SLACK * gradient_tolerance + RESOLUTION_FACTOR * sqrt(curv * max(1, M))`, M = magnitude of the pieces summed into F (>= |F|)
 pub const GRAD_SLACK: f64 = 10.0;
 /// 1e-7 ≈ sqrt(2 * 22 eps): a point whose objective is within 22 eps |F| of the minimum of a
 /// function with largest curvature `curv` has a gradient of at most this size.
@@ -28,6 +28,11 @@ pub trait Objective {
     fn hess(&self, t: &[f64]) -> Vec<Vec<f64>>;
     /// upper bound of the largest curvature at `t` (trace of a positive semi-definite curvature matrix)
     fn curv(&self, t: &[f64]) -> f64;
+    /// sum of the magnitudes of the pieces that are added and subtracted to form `value` (DESIGN §1.5: the scale
+    /// of a float sum is the largest magnitude entering it). Equal to |value| when all pieces have one sign.
+    fn mag(&self, t: &[f64]) -> f64 {
+        self.value(t).abs()
+    }
 }
 
 pub fn sigmoid(z: f64) -> f64 {
@@ -390,7 +395,7 @@ impl Objective for Tweedie<'_> {
             let mu = self.link.inv(eta);
             let y = self.y[i];
             let r = -(y - mu) / mu.powf(p);
-            let dr = 1.0 / mu.powf(p) + p * (y - mu) / mu.powf(p + 1.0);
+            let dr = 1.0 / mu.powf(p) + if p == 0.0 { 0.0 } else { p * (y - mu) / mu.powf(p + 1.0) };
             let h1 = self.link.inv_d1(eta);
             let c = dr * h1 * h1 + r * self.link.inv_d2(eta);
             for a in 0..d {
@@ -404,6 +409,26 @@ impl Objective for Tweedie<'_> {
         }
         h
     }
+    /// The unit deviances are differences of large pieces when y is close to mu or far from 1 (e.g. the power-3
+    /// deviance of targets ~1e-8 is a difference of terms ~1e8): the float resolution of the cost is eps times this.
+    fn mag(&self, t: &[f64]) -> f64 {
+        let p = self.power;
+        let mut m = 0.0;
+        for i in 0..self.x.len() {
+            let mu = self.link.inv(self.eta(t, i));
+            let y = self.y[i];
+            m += if p == 0.0 {
+                (y.abs() + mu.abs()) * (y.abs() + mu.abs())
+            } else if p == 1.0 {
+                2.0 * (if y == 0.0 { 0.0 } else { (y * (y / mu).ln()).abs() } + y.abs() + mu.abs())
+            } else if p == 2.0 {
+                2.0 * ((mu / y).ln().abs() + (y / mu).abs() + 1.0)
+            } else {
+                2.0 * ((y.powf(2.0 - p) / ((1.0 - p) * (2.0 - p))).abs() + (y * mu.powf(1.0 - p) / (1.0 - p)).abs() + (mu.powf(2.0 - p) / (2.0 - p)).abs())
+            };
+        }
+        0.5 * (m + self.alpha * t.iter().take(self.p).map(|v| v * v).sum::<f64>())
+    }
     /// trace of the expected (Fisher) curvature plus the absolute size of the residual term
     fn curv(&self, t: &[f64]) -> f64 {
         let p = self.power;
@@ -413,10 +438,10 @@ impl Objective for Tweedie<'_> {
             let mu = self.link.inv(eta);
             let y = self.y[i];
             let h1 = self.link.inv_d1(eta);
-            let r = (y - mu) / mu.powf(p);
-            let w = h1 * h1 / mu.powf(p)
-                + (p * (y - mu) / mu.powf(p + 1.0)).abs() * h1 * h1
-                + (r * self.link.inv_d2(eta)).abs();
+            // arranged so that tiny means (mu^p or mu^(p+1) underflowing) do not produce inf * 0
+            let a = h1 / mu.powf(0.5 * p);
+            let rel = if p == 0.0 { 0.0 } else { (p * (y - mu) / mu).abs() };
+            let w = a * a * (1.0 + rel) + ((y - mu) * (self.link.inv_d2(eta) / mu.powf(p))).abs();
             let xx: f64 = (0..self.dim()).map(|a| self.xt(i, a) * self.xt(i, a)).sum();
             c += w * xx;
         }
@@ -514,6 +539,8 @@ pub enum Verdict {
     /// not stationary, and the fit returns something else when allowed twice as many iterations:
     /// the run was stopped by `max_iterations`, i.e. it did not converge (set by the callers)
     IterationCap,
+    /// gradient above the plain tolerance and the curvature needed for the resolution term is not representable: not judged
+    CurvatureOverflow,
     /// the objective cannot be evaluated at the returned point (outside the deviance domain / non-finite)
     Undefined,
 }
@@ -550,10 +577,18 @@ pub fn judge(obj: &dyn Objective, theta: &[f64], tol: f64) -> Judged {
     let g = obj.grad(theta);
     let gn = num::norm2(&g);
     let curv = obj.curv(theta);
-    if !f.is_finite() || !gn.is_finite() || !curv.is_finite() {
+    if !f.is_finite() || !gn.is_finite() {
         return Judged { verdict: Verdict::Undefined, gnorm: gn, bound: 0.0, f, gap: None };
     }
-    let bound = grad_bound(tol, curv, f);
+    if !curv.is_finite() {
+        // value and gradient are fine, only the curvature estimate overflowed: without it only the plain tolerance applies
+        let bound = GRAD_SLACK * tol;
+        let verdict = if gn <= bound { Verdict::Stationary } else { Verdict::CurvatureOverflow };
+        return Judged { verdict, gnorm: gn, bound, f, gap: None };
+    }
+    let mag = obj.mag(theta);
+    let mag = if mag.is_finite() { mag.max(f.abs()) } else { f.abs() };
+    let bound = grad_bound(tol, curv, mag);
     if gn <= bound {
         return Judged { verdict: Verdict::Stationary, gnorm: gn, bound, f, gap: None };
     }
@@ -561,8 +596,8 @@ pub fn judge(obj: &dyn Objective, theta: &[f64], tol: f64) -> Judged {
     if let Some(p) = polish(obj, theta, 200) {
         let gap = f - p.f;
         let pol_curv = obj.curv(&p.theta);
-        let converged = p.gnorm <= grad_bound(0.0, pol_curv, p.f).max(1e-12);
-        if converged && gap <= STALL_REL * f.abs().max(1.0) {
+        let converged = p.gnorm <= grad_bound(0.0, pol_curv, mag).max(1e-12);
+        if converged && gap <= STALL_REL * mag.max(1.0) {
             return Judged { verdict: Verdict::Stalled, gnorm: gn, bound, f, gap: Some(gap) };
         }
         return Judged { verdict: Verdict::NotStationary, gnorm: gn, bound, f, gap: Some(gap) };
